@@ -1,6 +1,6 @@
 (* C12 -- vertex tracking between frames is injective and follows small motions.  Statements only. *)
 From Coq Require Import ZArith QArith List Bool.
-From Forsys Require Import Model.PyList Model.Tracking Proofs.TrackingProofs.
+From Forsys Require Import Model.PyList Model.Tracking Proofs.TrackingProofs Proofs.TrackingMotionProofs.
 Import ListNotations.
 
 (* never two vertices on one target, for every pool, every search radius schedule, every (injective) initial guess *)
@@ -27,6 +27,32 @@ Theorem C12_forward_backward : forall m k t, NoDup (map fst m) -> NoDup (targets
   follow_forward [Some m] (Some k) = Found (Some t) /\ follow_backward [Some m] (Some t) = Found (Some k).
 Proof. exact forward_backward_one_step. Qed.
 
+(* the proximity search returns a vertex's true successor whenever that successor is free, strictly the nearest free end point and
+   inside the largest search radius -- whatever the order of the pool, the earlier sweeps and the stale radius of the second pass *)
+Theorem C12_find_best_nearest : forall m v0 pool w, free_in m pool w ->
+  (forall c, free_in m pool c -> c = w \/ (sqd v0 w < sqd v0 c)%Q) ->
+  forall spreads mc, spreads <> [] -> (sqd v0 w < (last spreads 0%Q * mc) * (last spreads 0%Q * mc))%Q ->
+  find_best spreads m v0 pool mc = Some (vid w).
+Proof. exact find_best_nearest. Qed.
+(* small motions are followed: if every end point moves by less than d, d is at most half the smallest spacing of the next frame's
+   end points and at most the largest search radius (0.08 x extent for the shipped schedule), then every end point is mapped to its
+   true successor -- for any numbering of either frame (ids are arbitrary, pools are in arbitrary order) *)
+Theorem C12_small_motions_are_followed : forall spreads mc pool0 pool1 (succ : vtx -> vtx) (d2 : Q),
+  spreads <> [] -> NoDup (map vid pool0) -> NoDup (map vid pool1) ->
+  (forall v0, In v0 pool0 -> In (succ v0) pool1) -> NoDup (map (fun v => vid (succ v)) pool0) ->
+  (forall v0, In v0 pool0 -> (sqd v0 (succ v0) < d2)%Q) ->
+  (forall c c', In c pool1 -> In c' pool1 -> c <> c' -> (4 * d2 <= sqd c c')%Q) ->
+  (d2 <= (last spreads 0%Q * mc) * (last spreads 0%Q * mc))%Q ->
+  create_mapping spreads [] pool0 pool1 mc = map (fun v0 => (vid v0, Some (vid (succ v0)))) pool0.
+Proof. exact small_motions_are_followed. Qed.
+(* non-vacuity of the small-motion hypotheses: three end points moving by (1/100, 0), spacing >= 1, extent 10, shipped radii *)
+Example C12_small_motion_example :
+  let spreads := [(5 # 1000); (1 # 100); (2 # 100); (4 # 100); (8 # 100)]%Q in
+  let pool0 := [(4%Z, (0%Q, 0%Q)); (9%Z, (1%Q, 0%Q)); (2%Z, (0%Q, 2%Q))] in
+  let pool1 := [(30%Z, ((1 # 100)%Q, 2%Q)); (10%Z, ((101 # 100)%Q, 0%Q)); (20%Z, ((1 # 100)%Q, 0%Q))] in
+  create_mapping spreads [] pool0 pool1 10%Q = [(4, Some 20); (9, Some 10); (2, Some 30)]%Z.
+Proof. vm_compute. reflexivity. Qed.
+
 (* non-vacuity: two vertices, the nearer free one is chosen and the second vertex cannot take it again *)
 Example C12_example :
   create_mapping [(1 # 100)%Q; (2 # 100)%Q] [] [(1%Z, (0%Q, 0%Q)); (2%Z, ((1 # 10)%Q, 0%Q))] [(7%Z, ((1 # 100)%Q, 0%Q)); (8%Z, (5%Q, 5%Q))] 10%Q
@@ -39,3 +65,5 @@ Print Assumptions C12_targets_are_endpoints.
 Print Assumptions C12_every_endpoint_is_mapped.
 Print Assumptions C12_find_best_free.
 Print Assumptions C12_forward_backward.
+Print Assumptions C12_find_best_nearest.
+Print Assumptions C12_small_motions_are_followed.
